@@ -44,4 +44,57 @@ Rendered(params) == Walk(params, 1, Flat(params))
 Attributed(params) ==
   /\ Len(Rendered(params)) = Len(params)
   /\ \A p \in 1..Len(params) : Rendered(params)[p] = Printed(params)[p]
+---------------------------------------------------------------------------
+(***************************************************************************)
+(* Which function's parameter types are applied (source.go getFuncAST).    *)
+(*                                                                         *)
+(* A source file is a sequence of top-level function declarations, each    *)
+(* occupying the lines first..last (the `func' keyword .. the closing      *)
+(* brace), in increasing order and without sharing lines; `stmts' is the   *)
+(* set of its lines that carry a statement (possibly the declaration line  *)
+(* itself - a one-line function - or the line of the closing brace).       *)
+(* The runtime reports a frame at a line of its function: a statement      *)
+(* line, or the closing brace while deferred calls run.                    *)
+(*                                                                         *)
+(* The code walks the syntax tree depth-first - per declaration: the       *)
+(* declaration node, its signature (same line), then its statements - up   *)
+(* to the first node that starts at or after the frame's line, and takes   *)
+(* the last declaration seen before it; a declaration that starts on the   *)
+(* frame's line itself is the frame's function (fix 12).                   *)
+(***************************************************************************)
+MinS(S) == CHOOSE x \in S : \A y \in S : x <= y
+MaxS(S) == CHOOSE x \in S : \A y \in S : x >= y
+WellFormed(lay) ==
+  /\ \A k \in 1..Len(lay) : lay[k].first <= lay[k].last /\ lay[k].stmts \subseteq lay[k].first..lay[k].last
+  /\ \A k \in 1..(Len(lay) - 1) : lay[k].last < lay[k+1].first
+NodesOf(lay, k) ==
+  <<[kind |-> "decl", line |-> lay[k].first, d |-> k], [kind |-> "sig", line |-> lay[k].first, d |-> k]>>
+  \o [i \in 1..Cardinality(lay[k].stmts) |->
+        [kind |-> "stmt", line |-> SetToSortSeq(lay[k].stmts, LAMBDA a, b : a < b)[i], d |-> k]]
+Nodes(lay) == FlattenSeq([k \in 1..Len(lay) |-> NodesOf(lay, k)])
+
+(* 0 = no function found: the arguments stay unprocessed *)
+CodeLookup(lay, l, declOnLine) ==
+  LET ns  == Nodes(lay)
+      idx == {i \in 1..Len(ns) : ns[i].line >= l} IN
+  IF idx = {} THEN 0
+  ELSE LET i == MinS(idx) IN
+       IF declOnLine /\ ns[i].kind = "decl" /\ ns[i].line = l THEN ns[i].d
+       ELSE LET before == {j \in 1..(i-1) : ns[j].kind = "decl"} IN
+            IF before = {} THEN 0 ELSE ns[MaxS(before)].d
+Lookup(lay, l) == CodeLookup(lay, l, TRUE)
+(* the rule before fix 12: a frame on the declaration line of its function (a one-line
+   function, or a first statement on the line of `func') got the PREVIOUS function *)
+LookupBeforeFix12(lay, l) == CodeLookup(lay, l, FALSE)
+
+Enclosing(lay, l) ==
+  LET S == {k \in 1..Len(lay) : lay[k].first <= l /\ l <= lay[k].last} IN
+  IF S = {} THEN 0 ELSE CHOOSE k \in S : TRUE
+
+(* C19: the parameter types applied to a frame are those of the function the frame's line
+   lies in, or none at all; none only when nothing follows the line in the file *)
+LookupOK(lay, l) ==
+  Enclosing(lay, l) # 0 =>
+     /\ Lookup(lay, l) \in {0, Enclosing(lay, l)}
+     /\ Lookup(lay, l) = 0 => \A k \in 1..Len(lay) : \A i \in 1..Len(NodesOf(lay, k)) : NodesOf(lay, k)[i].line < l
 =============================================================================
